@@ -68,6 +68,29 @@ def ancestors(node):
     node = getattr(node, '_parent', None)
 
 
+def loop_of(node):
+  """the loop statement a break / continue at ``node`` belongs to."""
+  for a in ancestors(node):
+    if isinstance(a, (ast.For, ast.While, ast.AsyncFor)):
+      return a
+    if isinstance(a, (ast.FunctionDef, ast.AsyncFunctionDef, ast.Lambda, ast.ClassDef)):
+      return None
+  return None
+
+
+def loop_exits(loop, kinds=(ast.Break, ast.Return)):
+  """statements inside ``loop`` that leave it (break / return) or cut an iteration short (continue, when asked for):
+  a break / continue counts only when it belongs to ``loop`` itself, not to a loop nested in it."""
+  out = []
+  for x in walk_no_nested(loop, include_self=False):
+    if isinstance(x, kinds):
+      if isinstance(x, (ast.Break, ast.Continue)) and loop_of(x) is not loop:
+        # a break out of an inner loop does not leave `loop`
+        continue
+      out.append(x)
+  return out
+
+
 def enclosing(node, types):
   for a in ancestors(node):
     if isinstance(a, types):
